@@ -36,12 +36,14 @@ theorem checksum_eq_spec (f : Frame) (id : UInt32) (p : Bytes) (hm : f.msg = .ra
     simp [x25_sum_eq_crc16, crcInput, V2Frame.crcInput, lenByte, Msg.id, uint24Encode, Gen.uint24Encode, le24]
 
 /-- **C02 (gate).** With a dialect containing the frame's id, the reader's dialect gate delivers a frame
-    exactly when the carried checksum equals the CRC (with that message's CRC_EXTRA) and the payload decodes;
-    a checksum mismatch is reported as the non-fatal parse error `crcWrong`, nothing delivered. -/
+    exactly when the carried checksum equals the CRC (with that message's CRC_EXTRA) and the payload decodes (and the
+    decoded value re-encodes — always true of a consistent codec, C04); a checksum mismatch is reported as the
+    non-fatal parse error `crcWrong`, nothing delivered. -/
 theorem gate_iff (cfg : RCfg) (d : UInt32 → Option Codec) (hd : cfg.dialect = some d) (ho : cfg.specWindow = false)
     (f : Frame) (id : UInt32) (p : Bytes) (hm : f.msg = .raw id p) (c : Codec) (hc : d id = some c) :
     ((∃ g, dialectGate cfg f = .frame g) ↔
-      (f.crc.toBitVec = crc16 (crcInput f ++ [c.crcExtra]) ∧ ∃ v, c.decode f.isV2 p = .ok v)) ∧
+      (f.crc.toBitVec = crc16 (crcInput f ++ [c.crcExtra]) ∧
+        ∃ v p', c.decode f.isV2 p = .ok v ∧ c.encode f.isV2 v = .ok p')) ∧
     (f.crc.toBitVec ≠ crc16 (crcInput f ++ [c.crcExtra]) → dialectGate cfg f = .perr .crcWrong) := by
   obtain ⟨s, hs, hs2⟩ := checksum_eq_spec f id p hm c.crcExtra
   rw [← hs2]
@@ -58,14 +60,19 @@ theorem gate_iff (cfg : RCfg) (d : UInt32 → Option Codec) (hd : cfg.dialect = 
         refine ⟨this, ?_⟩
         simp [hcrc] at hg
         cases hdec : c.decode f.isV2 p with
-        | ok v => exact ⟨v, rfl⟩
+        | ok v =>
+          cases henc : c.encode f.isV2 v with
+          | ok q => exact ⟨v, q, rfl, henc⟩
+          | panic => simp [hdec, henc] at hg
         | errSize => simp [hdec] at hg
         | panic => simp [hdec] at hg
-    · rintro ⟨hcrc, v, hv⟩
+    · rintro ⟨hcrc, v, p', hv, he⟩
       have hcrc' : ¬ ((s != f.crc) = true) := fun h => (hne.mp h) hcrc
-      simp only [dialectGate, hd, hm, hc, ho, Bool.false_eq_true, ↓reduceIte, hs, hv]
+      simp only [dialectGate, hd, hm, hc, ho, Bool.false_eq_true, ↓reduceIte, hs, hv, he]
       cases f with
-      | v1 g => simp [hcrc']
+      | v1 g =>
+        simp [hcrc']
+        split <;> exact ⟨_, rfl⟩
       | v2 g =>
         simp [hcrc']
         split <;> exact ⟨_, rfl⟩
